@@ -4,6 +4,15 @@ descriptions — bit length sets, types (primitives, arrays, composites), attrib
 values (Rational, Boolean, String, Set) — observed through ==, hash, pickling and mutation of every list returned by
 a public accessor.
 
+Two further case classes (both are `type` / `attr` / `value` cases for the model, which is indifferent to them):
+  * histories (`hist`): immutable values cannot remember what was done with them, so every object on the way to the
+    final one may be USED (hashed, compared, kept in a set / dict, pickled, copied, queried, wrapped into another
+    object) BEFORE it is handed to the next public constructor (array, field / padding / constant, structure, union,
+    delimited, service); the result must honour the eq / hash / container / pickle contract against a twin built
+    without any such history, member by member;
+  * pairs of DIFFERENT kinds with one name (`xkind`): structure / union / delimited / service with the same full
+    name and version, X against an array of X, padding against a nameless void field, a rational against a boolean ...
+
 Outcome: {"eq", "sym", "refl", "hash_eq", "alias_ok", "pickle_ok", "str_a", "str_b"}.
 The Lean model decides `eq` (and the hash-key equality) from the keys the library's __eq__/__hash__ inspect.
 Oracle (independent): reflexive, symmetric, eq -> equal hashes, equal descriptions -> equal objects, objects that
@@ -45,6 +54,13 @@ def type_str(t, names: L._Names) -> str:
         return "%s[<=%d]" % (type_str(t[1], names), t[2])
     if k == "delim":
         return type_str(t[1], names)
+    if k == "svc":
+        # request and response sections are <service>.Request / .Response; the service takes the next name
+        for sec in (t[1], t[2]):
+            body = sec[1] if sec[0] == "delim" else sec
+            for f in body[1]:
+                type_str(f, names)
+        return "ns.%s.1.0" % names.fresh()
     # composites are named ns.T<n> in construction order (children first), like layout.build_impl does
     for f in t[1]:
         type_str(f, names)
@@ -58,10 +74,12 @@ def type_cls(t) -> str:
         return {"bool": "BooleanType", "byte": "ByteType", "utf8": "UTF8Type"}.get(
             kind, "FloatType" if kind.startswith("float") else "SignedIntegerType" if kind.startswith("int") else "UnsignedIntegerType")
     return {"void": "VoidType", "farr": "FixedLengthArrayType", "varr": "VariableLengthArrayType", "struct": "StructureType",
-            "union": "UnionType", "delim": "DelimitedType"}[k]
+            "union": "UnionType", "delim": "DelimitedType", "svc": "ServiceType"}[k]
 
 
 def bls_key(t):
+    if t[0] == "svc":
+        return ("no bit length set",)
     nodes: list = []
     r = L.s_nodes(L.strip(t), nodes)
     return (B.o_min(nodes, r), B.o_max(nodes, r), tuple(sorted(B.o_res(nodes, r, 32))))
@@ -173,6 +191,8 @@ def variant_value(rng, v):
 
 
 def gen_case(rng, prop):
+    if rng.random() < 0.3:
+        return gen_special(rng, prop)
     kind = rng.choice(["bls", "type", "type", "type", "attr", "value", "value"])
     if kind == "bls":
         for _ in range(20):
@@ -225,6 +245,10 @@ def gen_case(rng, prop):
 def sub_types(t):
     """The type description and every type nested in it (a delimited type hides its members from its own bit length set,
     but they are still objects whose equality and layout the suite queries)."""
+    if t[0] == "svc":
+        yield from sub_types(t[1])
+        yield from sub_types(t[2])
+        return
     yield t
     if t[0] in ("farr", "varr", "delim"):
         yield from sub_types(t[1])
@@ -269,13 +293,338 @@ def build_value(pydsdl, v):
     return pydsdl.Set([build_value(pydsdl, x) for x in v[1]])
 
 
-def build_attr(pydsdl, d):
-    ty = L.build_impl(pydsdl, d["type"]["ty"], L._Names())
+def build_attr(pydsdl, d, hist: typing.Optional[list] = None, record: typing.Optional[list] = None):
+    if "hist" in d and hist is None:
+        hist = d["hist"]
+    ty, h = build_any(pydsdl, d["type"]["ty"], hist)      # type: ignore  # (build_any is defined below)
+    if record is not None:
+        record.append(h)
     if d["value"] is None:
-        if d["type"]["ty"][0] == "void":
+        if d["type"]["ty"][0] == "void" and not d.get("as_field"):
             return pydsdl.PaddingField(ty)
         return pydsdl.Field(ty, d["name"])
     return pydsdl.Constant(ty, d["name"], build_value(pydsdl, d["value"]))
+
+
+# ------------------------------------------------------------------------------- histories and services
+
+HIST_OPS = ["hash", "hash", "set", "dict", "eq", "str", "pickle", "copy", "deepcopy", "bls", "attrs", "wrap"]
+
+
+def has_svc(t) -> bool:
+    return t[0] == "svc"
+
+
+def n_nodes(t) -> int:
+    """Number of objects the constructors build for a description (= number of history slots, in completion order)."""
+    k = t[0]
+    if k in ("prim", "void"):
+        return 1
+    if k in ("farr", "varr", "delim"):
+        return 1 + n_nodes(t[1])
+    if k == "svc":
+        return 1 + n_nodes(t[1]) + n_nodes(t[2])
+    return 1 + sum(n_nodes(f) for f in t[1])
+
+
+class _Hist:
+    """`plan`: {slot: [op, ...]} - what is done with the object completed in that slot before it is used any further."""
+
+    def __init__(self, pydsdl, plan):
+        self.pydsdl = pydsdl
+        self.plan = {int(k): v for k, v in (plan or [])}
+        self.n = 0
+        self.seen: list = []      # (object, hash it had when it was used)
+        self.notes: list = []     # contract violations observed while using an object
+
+    def done(self, obj):
+        ops = self.plan.get(self.n, ())
+        self.n += 1
+        for op in ops:
+            use(self, obj, op)
+        return obj
+
+
+def use(h: "_Hist", obj, op: str) -> None:
+    """A read-only use of a value object (must not be able to influence anything built from it later)."""
+    pydsdl = h.pydsdl
+    if op == "hash":
+        h.seen.append((obj, hash(obj)))
+    elif op == "set":
+        if obj not in {obj}:
+            h.notes.append("%s is not found in a set holding it" % obj)
+        h.seen.append((obj, hash(obj)))
+    elif op == "dict":
+        if {obj: 1}.get(obj) != 1:
+            h.notes.append("%s is not found in a dict keyed by it" % obj)
+    elif op == "eq":
+        if not (obj == obj) or obj != copy.copy(obj):
+            h.notes.append("%s is not equal to itself / its copy" % obj)
+    elif op == "str":
+        str(obj), repr(obj)
+    elif op == "pickle":
+        r = pickle.loads(pickle.dumps(obj))
+        if not (r == obj and hash(r) == hash(obj)):
+            h.notes.append("%s: unpickled copy differs / hashes differently" % obj)
+    elif op == "copy":
+        hash(copy.copy(obj))
+    elif op == "deepcopy":
+        c = copy.deepcopy(obj)
+        if not (c == obj and hash(c) == hash(obj)):
+            h.notes.append("%s: deep copy differs / hashes differently" % obj)
+    elif op == "bls":
+        try:
+            b = obj.bit_length_set
+            b.min, b.max, sorted(b % 32), obj.alignment_requirement
+        except TypeError:
+            pass
+    elif op == "attrs":
+        if isinstance(obj, pydsdl.CompositeType):
+            obj.attributes, obj.fields, obj.constants, obj.extent if not isinstance(obj, pydsdl.ServiceType) else None
+            try:
+                for _f, o in obj.iterate_fields_with_offsets():
+                    o.min, o.max
+            except TypeError:
+                pass
+    elif op == "wrap":
+        # the object becomes part of OTHER objects first (which are hashed and dropped)
+        if isinstance(obj, pydsdl.VoidType):
+            hash(pydsdl.PaddingField(obj))
+            return
+        if isinstance(obj, pydsdl.ServiceType):
+            return
+        hash(pydsdl.Field(obj, "w"))
+        if not (isinstance(obj, pydsdl.CompositeType) and obj.has_parent_service):
+            hash(pydsdl.VariableLengthArrayType(obj, 3))
+        if isinstance(obj, (pydsdl.StructureType, pydsdl.UnionType)) and not obj.has_parent_service:
+            ext = -(-obj.bit_length_set.max // 8) * 8 + 64
+            hash(pydsdl.DelimitedType(obj, ext))
+    else:
+        raise ValueError(op)
+
+
+def build2(pydsdl, t, names: L._Names, h: _Hist, section: typing.Optional[typing.Tuple[str, str]] = None):
+    """Like layout.build_impl (same names, same constructor arguments), plus services, plus the history hook after every
+    completed object.  `section` = (service name, "Request" | "Response") for the two sections of a service."""
+    k = t[0]
+    if k in ("prim", "void"):
+        return h.done(L.build_impl(pydsdl, t, names))
+    if k == "farr":
+        return h.done(pydsdl.FixedLengthArrayType(build2(pydsdl, t[1], names, h), t[2]))
+    if k == "varr":
+        return h.done(pydsdl.VariableLengthArrayType(build2(pydsdl, t[1], names, h), t[2]))
+    if k == "delim":
+        return h.done(pydsdl.DelimitedType(build2(pydsdl, t[1], names, h, section), t[2]))
+    CM = pydsdl.PrimitiveType.CastMode
+    if k in ("struct", "union"):
+        attrs = []
+        for i, f in enumerate(t[1]):
+            ft = build2(pydsdl, f, names, h)
+            attrs.append(pydsdl.PaddingField(ft) if f[0] == "void" else pydsdl.Field(ft, "f%d" % i))
+        for ci in range(t[2] if len(t) > 2 else 0):
+            attrs.append(pydsdl.Constant(pydsdl.UnsignedIntegerType(8, CM.SATURATED), "C%d" % ci, pydsdl.Rational(ci % 256)))
+        cls = pydsdl.StructureType if k == "struct" else pydsdl.UnionType
+        name = "ns." + names.fresh() if section is None else "ns.%s.%s" % section
+        return h.done(cls(name=name, version=pydsdl.Version(1, 0), attributes=attrs, deprecated=False, fixed_port_id=None,
+                          source_file_path=Path("/nonexistent/ns/X.1.0.dsdl"), has_parent_service=section is not None))
+    if k == "svc":
+        # the sections' members are built first (they take the names before the service does, as in type_str)
+        cnt = sum(1 for sec in (t[1], t[2]) for st in sub_types(sec) if st[0] in ("struct", "union")) - 2
+        svc_name = "T%d" % (names.n + cnt + 1)
+        req = build2(pydsdl, t[1], names, h, (svc_name, "Request"))
+        resp = build2(pydsdl, t[2], names, h, (svc_name, "Response"))
+        got = names.fresh()
+        assert got == svc_name, (got, svc_name)
+        return h.done(pydsdl.ServiceType(req, resp, None))
+    raise ValueError(k)
+
+
+def build_any(pydsdl, t, plan=None):
+    """(object, history record): layout.build_impl for plain descriptions, build2 for histories / services."""
+    if plan is None and not has_svc(t):
+        return L.build_impl(pydsdl, t, L._Names()), None
+    h = _Hist(pydsdl, plan)
+    return build2(pydsdl, t, L._Names(), h), h
+
+
+def twin_diff(pydsdl, obj, twin, where="object") -> typing.Optional[str]:
+    """`obj` and `twin` were built from ONE description (by different histories): they, and their members pairwise, are
+    interchangeable values."""
+    if type(obj) is not type(twin):
+        return "%s: classes %s / %s" % (where, type(obj).__name__, type(twin).__name__)
+    if not (obj == twin and twin == obj) or obj != twin:
+        return "%s %s: not equal to a twin built independently from the same description" % (where, obj)
+    if hash(obj) != hash(twin):
+        return "%s %s: equal to its independently built twin but hashes differently" % (where, obj)
+    if twin not in {obj} or obj not in {twin} or len({obj, twin}) != 1 or {obj: 1}.get(twin) != 1:
+        return "%s %s: set / dict lookup by an equal twin fails" % (where, obj)
+    if str(obj) != str(twin) or layout_sig(pydsdl, obj) != layout_sig(pydsdl, twin):
+        return "%s %s: string form / layout differ from the twin's" % (where, obj)
+    if isinstance(obj, pydsdl.ArrayType):
+        return twin_diff(pydsdl, obj.element_type, twin.element_type, where + ".element_type")
+    if isinstance(obj, pydsdl.DelimitedType):
+        r = twin_diff(pydsdl, obj.inner_type, twin.inner_type, where + ".inner_type")
+        if r:
+            return r
+    if isinstance(obj, pydsdl.CompositeType):
+        for i, (x, y) in enumerate(zip(obj.attributes, twin.attributes)):
+            if not (x == y and y == x) or hash(x) != hash(y) or str(x) != str(y) or type(x) is not type(y):
+                return "%s.attributes[%d] (%s): differs from the twin's / hashes differently" % (where, i, x)
+            if not isinstance(obj, pydsdl.DelimitedType):
+                r = twin_diff(pydsdl, x.data_type, y.data_type, "%s.attributes[%d].data_type" % (where, i))
+                if r:
+                    return r
+    return None
+
+
+def history_check(pydsdl, obj, desc_ty, h: typing.Optional[_Hist], rebuild) -> typing.Optional[str]:
+    if h is None or not h.plan:
+        return None
+    if h.notes:
+        return h.notes[0]
+    for o, was in h.seen:
+        if hash(o) != was:
+            return "the hash of %s changed after it was used to construct another object" % o
+    return twin_diff(pydsdl, obj, rebuild())
+
+
+def gen_hist(rng, t, extra: int = 0) -> list:
+    n = n_nodes(t) + extra
+    slots = [i for i in range(n) if rng.random() < 0.45] or [rng.randrange(n)]
+    if rng.random() < 0.3 and n >= 2:
+        slots = sorted(set(slots) | {n - 2})    # the object handed to the last constructor
+    return [[i, [rng.choice(HIST_OPS) for _ in range(rng.choice([1, 1, 2, 3]))]] for i in slots]
+
+
+def gen_fields(rng, union: bool):
+    n = rng.choice([2, 2, 3]) if union else rng.choice([1, 2, 2, 3])
+    return [L.gen_field(rng, rng.choice([0, 0, 1]), union) for _ in range(n)]
+
+
+def ext_for(rng, inner) -> int:
+    nodes: list = []
+    try:
+        mx = B.o_max(nodes, L.s_nodes(L.strip(inner), nodes)) if L.s_valid(L.strip(inner)) else 64
+    except Exception:   # an invalid member somewhere below: the case is discarded by the caller's validity filter
+        mx = 64
+    return -(-mx // 8) * 8 + 8 * rng.choice([0, 1, 4, 32])
+
+
+def gen_svc(rng):
+    """A service whose RESPONSE holds no composites, so that the service gets the name its request alone would get."""
+    rk = rng.choice(["struct", "struct", "union"])
+    req = [rk, gen_fields(rng, rk == "union")]
+    resp = ["struct", [L.gen_prim_field(rng) for _ in range(rng.choice([0, 1, 2]))]]
+    if rng.random() < 0.3:
+        req = ["delim", req, ext_for(rng, req)]
+    if rng.random() < 0.3:
+        resp = ["delim", resp, ext_for(rng, resp)]
+    return ["svc", req, resp]
+
+
+def gen_xkind(rng):
+    """Two descriptions of DIFFERENT kinds that get the same full name and version (or differ by one array level)."""
+    ch = rng.choice(["svc-msg", "svc-msg", "svc-svc", "struct-union", "sealed-delim", "delim-delim", "array-of"])
+    if ch in ("svc-msg", "svc-svc"):
+        a = gen_svc(rng)
+        if ch == "svc-svc":
+            b = copy.deepcopy(a)
+            if rng.random() < 0.5:
+                b[2] = ["struct", [L.gen_prim_field(rng)]]     # same kind, same name: the property demands nothing
+            return a, b
+        b = copy.deepcopy(a[1])                                 # the request section's definition as a message of its own
+        x = rng.random()
+        if x < 0.3:
+            b = b[1] if b[0] == "delim" else ["delim", b, ext_for(rng, b)]
+        elif x < 0.5:
+            body = b[1] if b[0] == "delim" else b
+            nv = [f for f in body[1] if f[0] != "void"]
+            if body[0] == "struct" and len(nv) >= 2:
+                body[0], body[1] = "union", nv
+            elif body[0] == "union":
+                body[0] = "struct"
+        return (a, b) if rng.random() < 0.5 else (b, a)
+    if ch == "array-of":
+        a = L.gen_ty(rng, rng.choice([0, 1, 2]), top=rng.random() < 0.5)
+        e = ["prim", 8, "byte"] if a[0] == "prim" and a[2] == "utf8" else a
+        b = [rng.choice(["farr", "varr"]), copy.deepcopy(e), rng.choice([1, 1, 2])]
+        return (a, b) if rng.random() < 0.5 else (b, a)
+    fs = gen_fields(rng, True)
+    if ch == "struct-union":
+        a, b = ["struct", fs], ["union", copy.deepcopy(fs)]
+        if rng.random() < 0.4:
+            e = ext_for(rng, a)
+            a, b = ["delim", a, e], ["delim", b, max(e, ext_for(rng, b))]
+    elif ch == "sealed-delim":
+        a = [rng.choice(["struct", "union"]), fs]
+        b = ["delim", copy.deepcopy(a), ext_for(rng, a)]
+    else:
+        a = ["delim", ["struct", fs], ext_for(rng, ["struct", fs])]
+        b = ["delim", ["union", copy.deepcopy(fs)], ext_for(rng, ["union", fs])]
+    return (a, b) if rng.random() < 0.5 else (b, a)
+
+
+def valid_any(t) -> bool:
+    if t[0] == "svc":
+        return all(st[0] in ("struct", "union", "delim") and L.s_valid(L.strip(st)) for st in (t[1], t[2]))
+    return L.s_valid(L.strip(t))
+
+
+def gen_special(rng, prop):
+    """History and cross-kind cases (see the module docstring)."""
+    for _ in range(100):
+        what = rng.choice(["hist", "hist", "hist", "hist", "xkind", "xkind", "xkind", "hist-attr", "hist-attr", "xattr", "xvalue"])
+        if what == "xkind":
+            a, b = gen_xkind(rng)
+            if not (valid_any(a) and valid_any(b) and affordable(a) and affordable(b)):
+                continue
+            c = {"kind": "type", "class": "xkind", "a": desc_key(a), "b": desc_key(b)}
+            if rng.random() < 0.3:
+                c["hist_a"] = gen_hist(rng, a)
+            return c
+        if what == "xvalue":
+            v = gen_value(rng)
+            if v[0] == "rat":
+                w = ["bool", v[1] != 0] if rng.random() < 0.5 else ["str", [ord(c) for c in str(Fraction(v[1], v[2]))]]
+            elif v[0] == "bool":
+                w = ["rat", int(v[1]), 1]
+            elif v[0] == "str":
+                w = ["set", [v]] if rng.random() < 0.5 else ["rat", len(v[1]), 1]
+            else:
+                w = copy.deepcopy(v[1][0])
+            return {"kind": "value", "class": "xkind", "a": v, "b": w} if rng.random() < 0.5 else {"kind": "value", "class": "xkind", "a": w, "b": v}
+        if what == "xattr":
+            # padding against a nameless void field: two classes, one value (the model and the property see one attribute)
+            w = rng.choice([1, 3, 8, 16, 64])
+            w2 = w if rng.random() < 0.6 else w % 64 + 1
+            return {"kind": "attr", "class": "xkind", "a": {"type": desc_key(["void", w]), "name": "", "value": None},
+                    "b": {"type": desc_key(["void", w2]), "name": "", "value": None, "as_field": True}}
+            # NOT GENERATED (genuine defect of the unchanged library, reported): Field(T, "x") == Constant(T, "x", v) holds in
+            # both directions although the two hash differently and have different string forms.
+        if rng.random() < 0.25:
+            t = gen_svc(rng)
+        else:
+            t = L.gen_ty(rng, rng.choice([1, 2, 2, 3]), top=rng.random() < 0.8)
+        if not (valid_any(t) and affordable(t)):
+            continue
+        if what == "hist-attr":
+            if t[0] == "svc" or (t[0] == "prim" and t[2] in ("byte", "utf8")):
+                continue
+            name = rng.choice(["x", "y"])
+            value = const_value(rng, t) if t[0] == "prim" and rng.random() < 0.7 else None
+            a = {"type": desc_key(t), "name": name, "value": value, "hist": gen_hist(rng, t)}
+            b = {"type": desc_key(t), "name": name, "value": value}
+            if rng.random() < 0.3:
+                b["hist"] = gen_hist(rng, t)
+            return {"kind": "attr", "class": "hist", "a": a, "b": b}
+        t2 = copy.deepcopy(t) if rng.random() < 0.75 or t[0] == "svc" else mutate_type(rng, t)
+        if not (valid_any(t2) and affordable(t2)):
+            continue
+        c = {"kind": "type", "class": "hist", "a": desc_key(t), "b": desc_key(t2), "hist_a": gen_hist(rng, t)}
+        if rng.random() < 0.35:
+            c["hist_b"] = gen_hist(rng, t2)
+        return c
+    raise RuntimeError("generator failed")
 
 
 ACCESSORS = ["attributes", "fields", "fields_except_padding", "constants", "name_components", "namespace_components"]
@@ -309,8 +658,10 @@ def layout_sig(pydsdl, o):
             sig = [b.min, b.max, sorted(b % 32), o.alignment_requirement]
         except TypeError:
             sig = ["no-bls"]
+        if isinstance(o, pydsdl.ServiceType):
+            sig += [layout_sig(pydsdl, o.request_type), layout_sig(pydsdl, o.response_type)]
         if isinstance(o, pydsdl.CompositeType):
-            sig += [o.extent, [str(a) for a in o.attributes], o.full_name, tuple(o.version), o.deprecated, o.fixed_port_id]
+            sig += [None if isinstance(o, pydsdl.ServiceType) else o.extent, [str(a) for a in o.attributes], o.full_name, tuple(o.version), o.deprecated, o.fixed_port_id]
         return sig
     return None
 
@@ -335,6 +686,8 @@ def nested_check(pydsdl, obj, desc) -> typing.Optional[str]:
     """After the outer object has been compared / hashed: every nested type still has the Specification's layout
     (querying an aggregate must not change what its members report)."""
     k = desc[0]
+    if k == "svc":
+        return nested_check(pydsdl, obj.request_type, desc[1]) or nested_check(pydsdl, obj.response_type, desc[2])
     try:
         b = obj.bit_length_set
         got = (b.min, b.max, tuple(sorted(b % 32)), tuple(sorted(b % 8)))
@@ -362,10 +715,10 @@ import sys, json, pickle
 sys.path.insert(0, %r)
 sys.path.insert(0, %r)
 import common
-from suites import layout as L
+from suites import values as V
 pydsdl = common.import_pydsdl()
 req = json.loads(sys.stdin.read())
-twin = L.build_impl(pydsdl, req["ty"], L._Names())
+twin = V.build_any(pydsdl, req["ty"])[0]
 obj = pickle.loads(bytes.fromhex(req["blob"]))
 print(json.dumps({"eq": bool(obj == twin and twin == obj), "hash_eq": hash(obj) == hash(twin), "in_set": obj in {twin}, "str_eq": str(obj) == str(twin)}))
 """
@@ -422,6 +775,23 @@ class ValuesSuite(common.Suite):
             {"kind": "type", "a": desc_key(["union", [["farr", ["prim", 3, "uintsat"], 3], ["prim", 16, "uintsat"]]]), "b": desc_key(["union", [["farr", ["prim", 3, "uintsat"], 3], ["prim", 16, "uintsat"]]])},
             {"kind": "type", "a": desc_key(["struct", [["union", [["struct", [["prim", 5, "uintsat"]]], u8]], u8]]), "b": desc_key(["struct", [["union", [["struct", [["prim", 5, "uintsat"]]], u8]], u8]])},
             {"kind": "type", "a": desc_key(["void", 8]), "b": desc_key(["prim", 8, "uintsat"])},
+            # histories: the inner type is a dict key before it is wrapped / the element before the array / the sections before the service
+            {"kind": "type", "class": "hist", "a": desc_key(["delim", s1, 64]), "b": desc_key(["delim", s1, 64]), "hist_a": [[1, ["dict"]]]},
+            {"kind": "type", "class": "hist", "a": desc_key(["farr", ["union", [u8, s2]], 3]), "b": desc_key(["farr", ["union", [u8, s2]], 3]),
+             "hist_a": [[2, ["hash"]], [3, ["set", "pickle"]]], "hist_b": [[4, ["hash"]]]},
+            {"kind": "type", "class": "hist", "a": desc_key(["svc", s1, ["delim", s2, 64]]), "b": desc_key(["svc", s1, ["delim", s2, 64]]),
+             "hist_a": [[1, ["hash", "wrap"]], [3, ["set"]], [4, ["deepcopy"]]]},
+            {"kind": "attr", "class": "hist", "a": {"type": desc_key(s1), "name": "x", "value": None, "hist": [[1, ["hash", "wrap"]]]},
+             "b": {"type": desc_key(s1), "name": "x", "value": None}},
+            # one name, different kinds
+            {"kind": "type", "class": "xkind", "a": desc_key(["svc", s1, s2]), "b": desc_key(s1)},
+            {"kind": "type", "class": "xkind", "a": desc_key(["union", [u8, u8]]), "b": desc_key(["svc", ["union", [u8, u8]], ["struct", []]])},
+            {"kind": "type", "class": "xkind", "a": desc_key(["svc", s1, s2]), "b": desc_key(["delim", s1, 8])},
+            {"kind": "type", "class": "xkind", "a": desc_key(["struct", [u8, u8]]), "b": desc_key(["union", [u8, u8]])},
+            {"kind": "type", "class": "xkind", "a": desc_key(s1), "b": desc_key(["delim", s1, 8])},
+            {"kind": "attr", "class": "xkind", "a": {"type": desc_key(["void", 8]), "name": "", "value": None},
+             "b": {"type": desc_key(["void", 8]), "name": "", "value": None, "as_field": True}},
+            {"kind": "value", "class": "xkind", "a": ["rat", 1, 1], "b": ["bool", True]},
         ]
 
     def run_impl(self, case):
@@ -432,10 +802,12 @@ class ValuesSuite(common.Suite):
                 objs = B.build_impl(pydsdl, case["nodes"], case["how"])
                 a, b = objs[case["a"]], objs[case["b"]]
             elif k == "type":
-                a = L.build_impl(pydsdl, case["a"]["ty"], L._Names())
-                b = L.build_impl(pydsdl, case["b"]["ty"], L._Names())
+                a, ha = build_any(pydsdl, case["a"]["ty"], case.get("hist_a"))
+                b, hb = build_any(pydsdl, case["b"]["ty"], case.get("hist_b"))
             elif k == "attr":
-                a, b = build_attr(pydsdl, case["a"]), build_attr(pydsdl, case["b"])
+                rec: list = []
+                a, b = build_attr(pydsdl, case["a"], record=rec), build_attr(pydsdl, case["b"], record=rec)
+                ha, hb = rec
             else:
                 a, b = build_value(pydsdl, case["a"]), build_value(pydsdl, case["b"])
         except Exception as ex:
@@ -449,6 +821,20 @@ class ValuesSuite(common.Suite):
             out["hash_stable"] = hash(a) == hash(a) and hash(copy.copy(a)) == hash(a) if k != "bls" else True
             out["str_a"], out["str_b"] = str(a), str(b)
             out["cls_a"], out["cls_b"] = type(a).__name__, type(b).__name__
+            # equal objects are interchangeable as set members / dict keys; unequal ones are two members
+            out["container_ok"] = ((b in {a}) == out["eq"] and (a in {b}) == out["eq"] and len({a, b}) == (1 if out["eq"] else 2)
+                                   and ({a: 1}.get(b) == 1) == out["eq"] and ([b].count(a) == 1) == out["eq"]) if k != "bls" else True
+            if k in ("type", "attr"):
+                hk = None
+                if k == "type":
+                    hk = (history_check(pydsdl, a, case["a"]["ty"], ha, lambda: build_any(pydsdl, case["a"]["ty"])[0])
+                          or history_check(pydsdl, b, case["b"]["ty"], hb, lambda: build_any(pydsdl, case["b"]["ty"])[0]))
+                else:
+                    hk = (history_check(pydsdl, a, None, ha, lambda: build_attr(pydsdl, case["a"], hist=[]))
+                          or history_check(pydsdl, b, None, hb, lambda: build_attr(pydsdl, case["b"], hist=[])))
+                out["history_ok"] = hk is None
+                if hk:
+                    out["soft_history"] = hk
             al = alias_check(a) or alias_check(b)
             out["alias_ok"] = al is None
             if al:
@@ -478,8 +864,10 @@ class ValuesSuite(common.Suite):
         if case["kind"] == "bls":
             c.update(nodes=case["nodes"], a=case["a"], b=case["b"])
         elif case["kind"] == "type":
-            c["a"] = {"ty": L.strip(case["a"]["ty"]), "cls": case["a"]["cls"], "str": case["a"]["str"]}
-            c["b"] = {"ty": L.strip(case["b"]["ty"]), "cls": case["b"]["cls"], "str": case["b"]["str"]}
+            # histories are invisible to the model (values have none); a service has no layout: ["svc"]
+            for side in ("a", "b"):
+                d = case[side]
+                c[side] = {"ty": ["svc"] if has_svc(d["ty"]) else L.strip(d["ty"]), "cls": d["cls"], "str": d["str"]}
         elif case["kind"] == "attr":
             for side in ("a", "b"):
                 d = case[side]
@@ -517,6 +905,10 @@ class ValuesSuite(common.Suite):
             return "pickle: %s" % impl.get("soft_pickle")
         if impl.get("nested_ok") is False:
             return "aliasing: %s" % impl.get("soft_nested")
+        if impl.get("container_ok") is False:
+            return "set / dict / list membership disagrees with ==: %s vs %s" % (impl["str_a"], impl["str_b"])
+        if impl.get("history_ok") is False:
+            return "history: %s" % impl.get("soft_history")
         k = case["kind"]
         if k == "type" or k == "attr":
             da = case["a"] if k == "type" else case["a"]["type"]
@@ -561,10 +953,32 @@ class ValuesSuite(common.Suite):
         return "values/%s/%s" % (case["kind"], desc.split(":")[0][:50])
 
     def shrink(self, case):
-        return []
+        # histories only: fewer used objects, fewer uses per object
+        keys = [(None, "hist_a"), (None, "hist_b")] if case["kind"] == "type" else [("a", "hist"), ("b", "hist")] if case["kind"] == "attr" else []
+        for side, key in keys:
+            holder = case if side is None else case[side]
+            hh = holder.get(key)
+            if not hh:
+                continue
+            for i in range(len(hh)):
+                for smaller in ([hh[:i] + hh[i + 1:]] + [hh[:i] + [[hh[i][0], hh[i][1][:j] + hh[i][1][j + 1:]]] + hh[i + 1:]
+                                                       for j in range(len(hh[i][1])) if len(hh[i][1]) > 1]):
+                    c = copy.deepcopy(case)
+                    (c if side is None else c[side])[key] = smaller
+                    yield c
 
     def features(self, case, impl):
         yield "kind:" + case["kind"]
+        if case.get("class"):
+            yield "class:" + case["class"]
+        hists = [case.get("hist_a"), case.get("hist_b")] if case["kind"] == "type" else \
+            [case["a"].get("hist"), case["b"].get("hist")] if case["kind"] == "attr" else []
+        for hh in hists:
+            for _slot, ops in hh or []:
+                for op in ops:
+                    yield "hist-op:" + op
+        if case.get("class") == "xkind" and case["kind"] == "type":
+            yield "xkind:%s/%s%s" % (case["a"]["cls"], case["b"]["cls"], ":same-str" if case["a"]["str"] == case["b"]["str"] else "")
         if impl.get("res") == "ok":
             yield "eq:%s" % impl["eq"]
             if case["kind"] in ("type", "attr"):
